@@ -50,7 +50,7 @@ def run_case(cs):
         for i in range(rng.randint(0, 2)):
             tree[(s + "/" if s else "") + "f" + str(i) + world.gen_name(rng, rng.choice(["plain", "uni", "space"]))] = world.gen_bytes(rng)
     d = cs.dir()
-    root = os.path.join(d, "R")
+    root = os.path.join(d, world.root_name(rng))
     world.write_tree(root, tree)
     os.makedirs(root, exist_ok=True)
     cand = [s for s in dirs]
